@@ -38,6 +38,16 @@ def gen_case(rng, tier):
     else:
         body = pf.gen_pf(rng, depth=min(depth, 2), dists=["normal0"], max_len=2,
                          allow=("site", "scan", "mvmap"))
+    if mode != "stat" and rng.random() < 0.3:
+        # nested lanes with independent sizes and axis modes: (repetition, lane) cells must all get their
+        # own stream whatever the relation between the two sizes (R < N, R = N, R > N)
+        d = body[0]["d"] if body and body[0]["k"] == "site" else ("keyprobe" if mode == "tracer" else rng.choice(pf.REAL_CONT))
+        site = lambda: {"k": "site", "d": d, "mode": rng.choice(["sample", "call"])}
+        inner = {"k": "mvmap", "n": rng.randint(2, 5), "axes": rng.choice(["0", "0", "none"]),
+                 "body": [site() for _ in range(rng.randint(1, 2))]}
+        outer = {"k": "mvmap", "n": rng.randint(2, 4), "axes": rng.choice(["none", "none", "0"]),
+                 "body": ([site()] if rng.random() < 0.3 else []) + [inner]}
+        body = ([site()] if rng.random() < 0.5 else []) + [outer] + ([site()] if rng.random() < 0.5 else [])
     return {"mode": mode, "pf": body, "keys": [rng.randint(0, 2**31 - 1) for _ in range(3)],
             "acc0": round(rng.uniform(-1, 1), 3), "n": 4000 if tier == "quick" else 20000}
 
